@@ -991,14 +991,27 @@ class YAMLPath:
 
         Returns:  (str) `value` with all `symbols` escaped
         """
-        escaped: str = value
+        escaped: str = str(value)
         for symbol in symbols:
-            replace_term: str = "\\{}".format(symbol)
-            oparts: List[str] = str(escaped).split(replace_term)
-            eparts: List[str] = []
-            for opart in oparts:
-                eparts.append(opart.replace(symbol, replace_term))
-            escaped = replace_term.join(eparts)
+            # Scan rather than split so that an escaped backslash which
+            # happens to precede the symbol is not mistaken for the symbol's
+            # own escape mark.
+            parts: List[str] = []
+            pos: int = 0
+            length: int = len(escaped)
+            while pos < length:
+                char = escaped[pos]
+                if (char == "\\" and pos + 1 < length
+                        and (symbol != "\\" or escaped[pos + 1] == "\\")):
+                    # Already escaped; preserve the pair as-is
+                    parts.append(escaped[pos:pos + 2])
+                    pos += 2
+                    continue
+                if char == symbol:
+                    parts.append("\\")
+                parts.append(char)
+                pos += 1
+            escaped = "".join(parts)
         return escaped
 
     @staticmethod
